@@ -353,7 +353,7 @@ def _label_ops(labels, rng):
 def run_design(res, work, tier, seed):
     os.makedirs(work, exist_ok=True)
     rng = random.Random(seed * 7919 + 33)
-    plans = [(1, 4), (2, 4)] if tier == "quick" else [(1, 5), (2, 5)]
+    plans = [(1, 4), (2, 4)] if tier == "quick" else [(1, 5), (2, 5), (3, 4)]
     # the arena's chunk-size policy with the REAL constants (assumption-only module: TLC evaluates the ASSUMEs)
     ra = tlc.run_tlc("ArenaSizes", "ArenaSizes.cfg", os.path.join(work, "mc_sizes"), workers=1, timeout=300)
     if ra["violated"] or "Assumption" in ra["out"]:
